@@ -666,8 +666,10 @@ fn patch_preds(ps: &[(usize, usize, String)]) -> (bool, bool) {
     (wf, sd)
 }
 
-/// usize subtractions of iter_patches that wrap when negative (modelled as `<>`); follows only the
-/// branches iter_patches takes (unchanged and literal nodes are not descended into).
+/// Templated side in reading order on the branches iter_patches takes (unchanged and literal nodes are not
+/// descended into): no child starts before the running templated index and the node's templated end is not
+/// before it. Where this fails the unrepaired code subtracted with underflow (`start - templated_idx` on usize:
+/// a panic with overflow checks, a wrapped "gap" without); the repaired code compares.
 fn underflow_free(seg: &ErasedSegment, tpl: &str) -> bool {
     let Some(pos) = seg.get_position_marker() else { return true };
     if tpl.get(pos.templated_slice.clone()).map(|t| t == seg.raw().as_str()).unwrap_or(false) {
@@ -721,8 +723,9 @@ pub fn own_token(tf: &TemplatedFile) -> bool {
 ///  * empty value: the only placeholders missing from the fixed text are ones whose sample value is
 ///    empty (no token carries them; the gap patch of `iter_patches` swallows them), or nothing is
 ///    missing but such a placeholder exists and the texts differ around it.
-///  * out of order: the patches of the final tree are not sorted / disjoint (a rule moved code, e.g. ST06,
-///    under an ancestor that holds a placeholder; positions run backwards and `fix_string` drops the
+///  * out of order: the patches of the final tree are not sorted / disjoint, or a child starts before the
+///    running templated index on a branch `iter_patches` takes (a rule moved code, e.g. ST06, under an
+///    ancestor that holds a placeholder; positions run backwards, a gap is not seen and `fix_string` drops the
 ///    patch that starts before the running index).
 /// Anything else (a placeholder with a value lost, changed, reordered; an edit inside a rendering) keeps
 /// its per-input key.
@@ -989,7 +992,8 @@ fn run_file(ls: &mut Linters, it: &Item, out: &mut Buf) {
     let mut nodes = 0usize;
     let tree_term = tree_g(end, &mut ok_tree, &mut nodes);
     out.hyp("final tree: every segment has a position marker and no source fixes", "blocking", ok_tree, json!({"input":input}));
-    out.hyp("iter_patches: no usize underflow in start_diff/end_diff on the branches taken (would panic with overflow checks)", "diagnostic", underflow_free(end, &tpl), json!({"input":input}));
+    let in_order = underflow_free(end, &tpl);
+    out.hyp("iter_patches: on the branches taken no child starts before the running templated index (code moved backwards; before the repair a usize underflow: panic with overflow checks)", "diagnostic", in_order, json!({"input":input}));
     if !templated {
         out.hyp("wf_ranges(real patches), untemplated", "blocking", wf, json!({"input":input,"patches":run.patches}));
         let pm = end.get_position_marker();
@@ -1075,7 +1079,7 @@ fn run_file(ls: &mut Linters, it: &Item, out: &mut Buf) {
         match rendered {
             Ok(Ok(r)) => {
                 let ph_fixed = placeholders(&r.templated_file);
-                let key = match known_class(tf, &tpl, &run.fixed, ph_fixed == ph_src, sd) {
+                let key = match known_class(tf, &tpl, &run.fixed, ph_fixed == ph_src, sd && in_order) {
                     Some(k) => k.to_string(),
                     None => format!("c04-templated-{:016x}", fnv(&format!("{}|{}|{}|{}", it.dialect, it.rules, it.sql, cfg_text("", "", it.templ.as_ref())))),
                 };
@@ -1351,6 +1355,12 @@ pub fn main(args: &Args) {
             // fixed e89ae00: AL02 inserts "AS " at the start of the alias node, LT02 an indent before it:
             // two insertions at one source position, the second was lost
             ("ansi", "all", "SELECT :a\n\n\n:b;\n", Some(("colon", vec![("a", "1"), ("b", "bar")]))),
+            // fixed (iter_patches compares instead of subtracting): ST06 moves the cast in front of the placeholder
+            // expression, the moved child starts before the running templated index: `start - templated_idx`
+            // underflowed (debug builds: fix panicked). The file written is still wrong: known finding out-of-order.
+            ("ansi", "all", "SELECT :b :: int, cast(a as int) FROM t\n", Some(("colon", vec![("b", "1")]))),
+            // same repair, seen without overflow checks: the wrapped subtraction emitted an extra gap patch (29..29) here
+            ("snowflake", "all", "SELECT DISTINCT TOP :p col1, t.* FROM t;\n", Some(("colon", vec![("p", "40")]))),
         ] {
             items.push(Item {
                 cls: "regression",
